@@ -1,6 +1,7 @@
 package main
 
 import (
+	"runtime"
 	"fmt"
 	"go/types"
 	"math/big"
@@ -100,6 +101,7 @@ type Interp struct {
 	ghost     map[string]Value
 	usedStubs map[string]bool
 	capOblig, capExplore int64
+	unwindCut int
 	cuts map[string]bool
 	lockLog   func(name string, mu Value)
 }
@@ -290,7 +292,7 @@ func (ex *Explorer) runPath(sol *Solver, base *baseState, prefix []Decision) (di
 				case boundHit:
 					end = "bound"
 					ex.mu.Lock()
-					ex.incomplete = append(ex.incomplete, r.what)
+					ex.incomplete = append(ex.incomplete, r.what+in.whereAmI())
 					ex.mu.Unlock()
 				case engineAbort:
 					end = "abort"
@@ -302,7 +304,7 @@ func (ex *Explorer) runPath(sol *Solver, base *baseState, prefix []Decision) (di
 				default:
 					end = "abort"
 					ex.mu.Lock()
-					ex.aborts = append(ex.aborts, fmt.Sprintf("engine panic: %v%s", r, in.whereAmI()))
+					ex.aborts = append(ex.aborts, fmt.Sprintf("engine panic: %v%s\n%s", r, in.whereAmI(), shortStack()))
 					ex.mu.Unlock()
 					if ex.cfg.Trace {
 						panic(r)
@@ -343,7 +345,36 @@ func (ex *Explorer) runPath(sol *Solver, base *baseState, prefix []Decision) (di
 }
 
 func (in *Interp) whereAmI() string {
-	return ""
+	var sb strings.Builder
+	sb.WriteString(" [path choices:")
+	n := 0
+	for _, d := range in.decisions {
+		if d.Kind == 'v' || d.Kind == 'p' {
+			fmt.Fprintf(&sb, " %c%d", d.Kind, d.Val)
+			n++
+			if n > 24 {
+				break
+			}
+		}
+	}
+	sb.WriteString("]")
+	return sb.String()
+}
+
+func shortStack() string {
+	buf := make([]byte, 1<<14)
+	n := runtime.Stack(buf, false)
+	lines := strings.Split(string(buf[:n]), "\n")
+	var out []string
+	for _, l := range lines {
+		if strings.Contains(l, "/verif/engine/") {
+			out = append(out, strings.TrimSpace(l))
+		}
+		if len(out) > 12 {
+			break
+		}
+	}
+	return strings.Join(out, " | ")
 }
 
 func (in *Interp) noteFunc(fn *ssa.Function) {
@@ -406,6 +437,10 @@ func (in *Interp) decide(fr *frame, instr ssa.Instruction, c *Term) bool {
 				in.ex.maxUnwind = n
 			}
 			in.ex.mu.Unlock()
+		}
+		if in.unwindCut > 0 && n > in.unwindCut {
+			in.cuts[fmt.Sprintf("loop in %s unrolled at most %d symbolic iterations; longer executions not explored", fr.fn, in.unwindCut)] = true
+			panic(pathEnd{"unwind-cut"})
 		}
 		if n > in.cfg.Unwind {
 			panic(boundHit{fmt.Sprintf("unwinding bound %d exceeded at %s in %s", in.cfg.Unwind, in.prog.Fset.Position(instr.Pos()), fr.fn)})
@@ -562,9 +597,12 @@ func (in *Interp) obligation(cond *Term, label string, fault bool) {
 			in.sol.Pop()
 			if r == Unknown {
 				ex.mu.Lock()
-				ex.incomplete = append(ex.incomplete, "solver unknown on obligation "+label)
+				ex.incomplete = append(ex.incomplete, "solver unknown on obligation "+label+in.whereAmI())
 				ex.mu.Unlock()
 			} else if r == Unsat {
+				if cond.IsFalse() {
+					panic(pathEnd{"infeasible"})
+				}
 				// cond is implied; nothing to add
 				ex.mu.Lock()
 				ex.decided++
